@@ -86,25 +86,27 @@ def port_table_rule(F, rep):
     fn = "io::slippi::de::parse_start"
     b = F.body(fn)
     root = b["tir"]["value"]
-    ports_src = None
-    for n in tir.walk(root):
-        if n.get("k") == "Let" and n["pat"].get("name") == "ports":
-            ports_src = tir.pretty(n["init"])
-    rep.ob("ports.source", ports_src == "game::port_occupancy(&start)", fn, "ports", "ports must be port_occupancy(&start); got %s" % ports_src)
+    lets = {n["pat"]["id"]: n for n in tir.walk(root) if n.get("k") == "Let" and n["pat"].get("k") == "Bind"}
     wc = [n for n in tir.walk(root) if n.get("k") == "Call" and declared(n) == "frame::mutable::Frame::with_capacity"]
-    rep.ob("ports.columns", len(wc) == 1 and tir.pretty(wc[0]["args"][2]) == "&ports", fn, "with_capacity", "frames.ports must be built from the same `ports` sequence")
+    ports_id = strip(wc[0]["args"][2]).get("id") if len(wc) == 1 else None
+    src = lets.get(ports_id)
+    rep.ob("ports.source", src is not None and tir.pretty(src["init"]).startswith("game::port_occupancy(&"), fn, "ports", "frames.ports must be built from port_occupancy(&start)")
+    rep.ob("ports.columns", len(wc) == 1 and ports_id is not None, fn, "with_capacity", "frames.ports must be built by one Frame::with_capacity call from that sequence")
     ok = False
     for n in tir.walk(root):
-        if n.get("k") == "For":
-            it = tir.pretty(n["iter"])
-            if it == "ports.into_iter().enumerate()" and n["pat"].get("k") == "Tuple":
-                i_name, p_name = [q.get("name") for q in n["pat"]["pats"]]
-                for a in tir.walk(n["body"]):
-                    if a.get("k") == "Assign":
-                        l = strip(a["l"])
-                        if l.get("k") == "Index" and tir.pretty(l["index"]).startswith("(%s.port as usize" % p_name) and L.local_name(a["r"]) == i_name:
-                            ok = True
-    rep.ob("ports.index-table", ok, fn, "port_indexes", "port_indexes[p.port] must be the position of p in the same `ports` sequence (enumerate index)")
+        if n.get("k") == "For" and n["pat"].get("k") == "Tuple":
+            it = strip(n["iter"])
+            # <ports>.into_iter().enumerate()  /  .iter().enumerate()
+            if it.get("k") == "MethodCall" and it["method"] == "enumerate":
+                inner = strip(it["recv"])
+                if inner.get("k") == "MethodCall" and inner["method"] in ("into_iter", "iter") and strip(inner["recv"]).get("id") == ports_id:
+                    i_name, p_name = [q.get("name") for q in n["pat"]["pats"]]
+                    for a in tir.walk(n["body"]):
+                        if a.get("k") == "Assign":
+                            l = strip(a["l"])
+                            if l.get("k") == "Index" and tir.pretty(l["index"]).startswith("(%s.port as usize" % p_name) and L.local_name(a["r"]) == i_name:
+                                ok = True
+    rep.ob("ports.index-table", ok, fn, "port_indexes", "port_indexes[p.port] must be the position of p in the same occupancy sequence (enumerate index)")
     # order preserved by Frame::with_capacity and port_occupancy
     wcf = L.x_with_capacity(F.body("frame::mutable::Frame::with_capacity"))
     each = [l for l in L.tree_leaves(wcf) if l["op"] == "each"]
@@ -219,21 +221,28 @@ def items_rule(F, G, rep):
             base = alias[bh] + ("." + br if br else "")
         return base + ("." + rest if rest else "")
     old = new = pushed = None
+    lets = {n["pat"]["id"]: n for n in tir.walk(root) if n.get("k") == "Let" and n["pat"].get("k") == "Bind"}
     for n in tir.walk(root):
-        if n.get("k") == "Let" and n["pat"].get("name") == "old_len":
-            i = strip(n["init"])
-            if i.get("k") == "MethodCall" and i["method"] == "last":
-                old = res(tir.place(i["recv"]))
-        if n.get("k") == "Let" and n["pat"].get("name") == "new_len":
-            lens = [x for x in tir.walk(n["init"]) if x.get("k") == "MethodCall" and x["method"] == "len"]
-            subs = [x for x in tir.walk(n["init"]) if x.get("k") == "MethodCall" and x["method"] == "checked_sub"]
-            if len(lens) == 1 and len(subs) == 1 and L.local_name(subs[0]["args"][0]) == "old_len":
-                new = res(tir.place(lens[0]["recv"]))
         if n.get("k") == "MethodCall" and n["method"] == "try_push" and "arrow2::offset::Offsets" in (declared(n) or ""):
-            pushed = (res(tir.place(n["recv"])), L.local_name(n["args"][0]))
-    ok = (old or "").endswith("frames.item_offset") and (new or "").startswith("state.game.frames.item.") and pushed is not None and (pushed[0] or "").endswith("frames.item_offset") and pushed[1] == "new_len"
+            arg = strip(n["args"][0])
+            pushed = (res(tir.place(n["recv"])), arg.get("id"))
+            nl = lets.get(arg.get("id"))
+            if nl is not None:
+                lens = [x for x in tir.walk(nl["init"]) if x.get("k") == "MethodCall" and x["method"] == "len"]
+                subs = [x for x in tir.walk(nl["init"]) if x.get("k") == "MethodCall" and x["method"] == "checked_sub"] + [x for x in tir.walk(nl["init"]) if x.get("k") == "Binary" and x.get("op") == "Sub"]
+                if len(lens) == 1 and len(subs) == 1:
+                    new = res(tir.place(lens[0]["recv"]))
+                    sub_arg = strip(subs[0]["args"][0]) if subs[0].get("k") == "MethodCall" else strip(subs[0]["r"])
+                    ol = lets.get(sub_arg.get("id"))
+                    if ol is not None:
+                        i = strip(ol["init"])
+                        while i.get("k") == "Unary":
+                            i = strip(i["e"])
+                        if i.get("k") == "MethodCall" and i["method"] == "last":
+                            old = res(tir.place(i["recv"]))
+    ok = (old or "").endswith("frames.item_offset") and (new or "").startswith("state.game.frames.item.") and pushed is not None and (pushed[0] or "").endswith("frames.item_offset")
     rep.ob("items.offset", bool(ok), PE + "#FrameEnd", "item_offset", "the Frame End arm must push (item column length - last offset) onto item_offset; old=%s new=%s pushed=%s" % (old, new, pushed),
-           sample={"old": old, "new": new, "pushed": pushed})
+           sample={"old": old, "new": new})
     ilen = F.body("frame::mutable::Item::len")
     rep.ob("items.len-column", ilen is not None and (new or "").split(".")[-1] in tir.pretty(ilen["tir"]["value"]) or (new or "").endswith(".type"), "frame::mutable::Item", "len", "the item count must be the length of an always-present item column")
     # who may call the top-level event readers
